@@ -5,6 +5,7 @@ import (
 	"math/rand"
 	"strings"
 	"sync"
+	"sync/atomic"
 	"time"
 
 	"github.com/Fantom-foundation/lachesis-base/inter/dag"
@@ -140,13 +141,34 @@ func atoi(s string) int {
 type lruComp struct {
 	c         *wlru.Cache
 	maxW, max int
+	cb        bool
+	evicted   int64 // eviction callbacks seen (the callback runs under the cache's lock)
 }
 
+// newWlru: variants by seed — ordinary bounds, size 0, size 1, weight 0, weight 1; with and without the
+// eviction callback (NewWithEvict)
 func newWlru(seed int64) *lruComp {
 	c := &lruComp{maxW: 6 + int(seed%5), max: 2 + int(seed%3)}
-	c.c, _ = wlru.New(uint(c.maxW), c.max)
+	switch (seed / 7) % 6 {
+	case 1:
+		c.max = 0
+	case 2:
+		c.max = 1
+	case 3:
+		c.maxW = 0
+	case 4:
+		c.maxW = 1
+	}
+	c.cb = (seed/3)%2 == 0
+	if c.cb {
+		c.c, _ = wlru.NewWithEvict(uint(c.maxW), c.max, func(k, v interface{}) { atomic.AddInt64(&c.evicted, 1) })
+	} else {
+		c.c, _ = wlru.New(uint(c.maxW), c.max)
+	}
 	return c
 }
+
+func (c *lruComp) Cfg() string { return fmt.Sprintf("w%d.s%d.cb%d", c.maxW, c.max, b2i(c.cb)) }
 
 func (c *lruComp) Model() seqModel { return &lruModel{maxW: c.maxW, max: c.max} }
 func (c *lruComp) Finish()         {}
@@ -270,7 +292,7 @@ func (m *semModel) try(n uint32, s uint64) bool {
 func (m *semModel) Apply(op []string) string {
 	n, s := uint32(atoi(op[1])), uint64(atoi(op[2]))
 	switch op[0] {
-	case "TryAcquire", "Acquire0", "AcquireB":
+	case "TryAcquire", "Acquire0", "AcquireB", "AcquireZ", "AcquireH":
 		// a blocking Acquire takes effect in its last critical section: it succeeds iff the weight fits THEN;
 		// it gives up (deadline passed, or weight above the maximum) only right after a failed attempt
 		return itoa(b2i(m.try(n, s)))
@@ -294,16 +316,37 @@ func (m *semModel) Apply(op []string) string {
 }
 
 type semComp struct {
-	s    *datasemaphore.DataSemaphore
-	stop chan struct{}
-	once sync.Once
+	s      *datasemaphore.DataSemaphore
+	stop   chan struct{}
+	once   sync.Once
+	mn     uint32
+	ms     uint64
+	warnCb bool
 }
 
-func newSem() *semComp {
-	return &semComp{s: datasemaphore.New(dag.Metric{Num: 5, Size: 50}, func(dag.Metric, dag.Metric, dag.Metric) {}),
-		stop: make(chan struct{})}
+// newSem: variants by seed — capacity (5,50), (0,0), (1,1), (0,50), (3,0); warning callback nil or not
+func newSem(seed int64) *semComp {
+	c := &semComp{stop: make(chan struct{}), mn: 5, ms: 50}
+	switch (seed / 5) % 6 {
+	case 1:
+		c.mn, c.ms = 0, 0
+	case 2:
+		c.mn, c.ms = 1, 1
+	case 3:
+		c.mn, c.ms = 0, 50
+	case 4:
+		c.mn, c.ms = 3, 0
+	}
+	c.warnCb = (seed/2)%2 == 0
+	var warn func(dag.Metric, dag.Metric, dag.Metric)
+	if c.warnCb {
+		warn = func(dag.Metric, dag.Metric, dag.Metric) {}
+	}
+	c.s = datasemaphore.New(dag.Metric{Num: idx.Event(c.mn), Size: c.ms}, warn)
+	return c
 }
-func (c *semComp) Model() seqModel { return &semModel{mn: 5, ms: 50} }
+func (c *semComp) Cfg() string     { return fmt.Sprintf("n%d.s%d.warn%d", c.mn, c.ms, b2i(c.warnCb)) }
+func (c *semComp) Model() seqModel { return &semModel{mn: c.mn, ms: c.ms} }
 func (c *semComp) Finish()         { close(c.stop); c.s.Terminate() }
 
 // waker: Acquire re-checks its deadline only when the condition variable is signalled (the missing timer is
@@ -326,8 +369,15 @@ func (c *semComp) waker() {
 
 func (c *semComp) Gen(r *rand.Rand, t, i int, lin bool) []string {
 	n, s := itoa(r.Intn(4)), itoa(r.Intn(30))
+	if r.Intn(8) == 0 {
+		n, s = "0", "0" // zero weight
+	}
 	x := r.Intn(100)
 	switch {
+	case x < 3:
+		return []string{"AcquireZ", n, s} // timeout exactly zero
+	case x < 6:
+		return []string{"AcquireH", "100", "1000"} // an hour of timeout, a weight above every capacity: refused at once
 	case x < 30:
 		return []string{"TryAcquire", n, s}
 	case x < 36:
@@ -365,6 +415,10 @@ func (c *semComp) Exec(t int, op []string) string {
 		// deadline in the past: never waits (when the weight does not fit, the loop sees the deadline
 		// passed and returns false)
 		return itoa(b2i(c.s.Acquire(m, -time.Second)))
+	case "AcquireZ":
+		return itoa(b2i(c.s.Acquire(m, 0)))
+	case "AcquireH":
+		return itoa(b2i(c.s.Acquire(m, time.Hour)))
 	case "AcquireB": // really blocks on the condition variable, up to 2 ms
 		return itoa(b2i(c.s.Acquire(m, 2*time.Millisecond)))
 	case "AcquireWait": // STRESS only: really waits on the condition variable; a helper releases
